@@ -638,10 +638,18 @@ class QueryObjectDescriptor(CanBehaveLikeAVariable[T], ABC):
         if not selected_vars:
             yield bindings
             return
-        for var_val in selected_vars[0]._evaluate__(copy(bindings)):
-            new_bindings = copy(bindings)
-            new_bindings.update(var_val)
-            yield from self._bind_selected_variables_(new_bindings, selected_vars[1:])
+        # A selected expression is evaluated as a value here, also when the same expression stands as a condition
+        # elsewhere in the query: what it is an operand of while it is bound is this descriptor.
+        selected_var = selected_vars[0]
+        eval_parent = selected_var._eval_parent_
+        selected_var._eval_parent_ = self
+        try:
+            for var_val in selected_var._evaluate__(copy(bindings)):
+                new_bindings = copy(bindings)
+                new_bindings.update(var_val)
+                yield from self._bind_selected_variables_(new_bindings, selected_vars[1:])
+        finally:
+            selected_var._eval_parent_ = eval_parent
 
     def _warn_on_unbound_variables_(self, sources: Dict[int, HashedValue],
                                     selected_vars: Iterable[CanBehaveLikeAVariable]):
